@@ -100,7 +100,7 @@ U('C12', 'C12_project.cpp', defines=dict(DIM=3, NB=2, SB=3, MEMSZ2=32), unwind=1
 # ---- C13 BLAS adaptor, call-contract level (recorded Fortran calls + address-map oracle); a rejection (exception / assertion) is an allowed outcome
 BLAS_STUBS = [r'_ZNSt7__cxx1112basic_string', r'_ZNSt11logic_error', r'_ZNSt13runtime_error', r'_ZSt.*to_string', r'_ZNSt9exception', r'vsnprintf', r'_ZNKSt', r'_ZStplI', r'_ZSt9terminatev__', r'__cxa_guard', r'_ZNSt8ios_base', r'__cxa_atexit', r'_ZNSo', r'_ZSt4cerr', r'_ZSt16__ostream_insert', r'_ZNSt6locale', r'_ZSt4endl', r'_ZNSt9basic_ios', r'_ZNKSt5ctype', r'_ZSt16__throw_bad_castv']
 # herk rejects the layouts it cannot express by `assert(0)` (the property allows rejection by assertion in assertion-enabled builds)
-HERK_REJECT = [r'^LIBASSERT boost/multi/adaptors/blas/(herk|gemm|gemv|trsm)\.hpp:\d+: 0( && "not implemented in blas")?$']
+HERK_REJECT = [r'^LIBASSERT boost/multi/adaptors/blas/\w+\.hpp:\d+: (0|false)( && ".*")?$']   # any `assert(0)` / `assert(false && "reason")` in the BLAS adaptor is a rejection
 KF13 = {}   # the former known finding C13-gemm-unit-extent is fixed in /repo (0d18b03); gemm_unit_l* are ordinary entries now
 # quick: the complex instantiations WITHOUT conjugation (zgemm_s00_*, ztrsm_s00_*) run the same dispatch as the double ones and are left to the thorough tier
 C13_QUICK_SKIP = ['zgemm_s00_l%d' % l for l in range(8)] + ['ztrsm_s00_l%d' % l for l in range(4)] + ['gemm_forms_l2', 'gemm_forms_l5']
